@@ -6,5 +6,6 @@ CONSTANTS
   KeyLock = TRUE
   ExpiryRecheck = TRUE
   EntryApi = TRUE
+  FlushLock = TRUE
 SPECIFICATION Spec
 INVARIANT EmitSched
